@@ -10,9 +10,54 @@ import random
 from rig import geometry
 from rig.links import Links
 from rig.place_and_route.route.utils import longest_dimension_first
+from rig.place_and_route.route import utils as route_utils
 
 MAXW = 12
 MESHN = 14
+
+
+class Scripted(object):
+    """Stands in for the `random` module inside rig.geometry / route.utils so that *every* outcome of
+    the random tie-breaks can be enumerated: each call is a choice point with a finite option list."""
+
+    def __init__(self, floats):
+        self.floats = floats
+        self.script = []
+        self.pos = 0
+        self.widths = []
+
+    def _choose(self, n):
+        if self.pos == len(self.script):
+            self.script.append(0)
+        i = self.script[self.pos]
+        if self.pos == len(self.widths):
+            self.widths.append(n)
+        else:
+            self.widths[self.pos] = n
+        self.pos += 1
+        return i
+
+    def random(self):
+        return self.floats[self._choose(len(self.floats))]
+
+    def randint(self, a, b):
+        return a + self._choose(b - a + 1)
+
+    def outcomes(self, fn):
+        """call fn() once for every combination of choices; yields its results"""
+        self.script = []
+        while True:
+            self.pos = 0
+            self.widths = []
+            yield fn()
+            # odometer increment over the choice points actually visited
+            self.script = self.script[:self.pos]
+            k = self.pos - 1
+            while k >= 0 and self.script[k] + 1 >= self.widths[k]:
+                k -= 1
+            if k < 0:
+                return
+            self.script = self.script[:k] + [self.script[k] + 1]
 
 
 def xyz_forms(x, y, rng):
@@ -28,6 +73,13 @@ def run(chk):
     nsrc = chk.pick(3, 10)
     seeds = chk.pick(3, 12)      # random tie-break seeds per pair
 
+    # thin tori, where a shortest vector may spiral around the short axis
+    thin = [(12, 3), (3, 12), (12, 4), (4, 11), (10, 1), (1, 9), (11, 2), (2, 12), (12, 5)]
+    if not chk.quick:
+        thin += [(a, b) for a in range(6, 13) for b in range(1, 5)] + [(b, a) for a in range(6, 13) for b in range(1, 5)]
+    scr2 = Scripted([0.0, 0.5])
+    scr3 = Scripted([0.0, 0.3, 0.6])
+
     chk.design("HexDesign", "HexDesign_%s.cfg" % chk.tier, expect_actions=("Step",))
 
     traces = []
@@ -38,12 +90,16 @@ def run(chk):
             traces.append(dict(w=w, h=h, ev=evs[i:i + CH]))
 
     # ---- torus functions
-    for w in range(1, maxw + 1):
-        for h in range(1, maxw + 1):
+    sizes = [(w, h) for w in range(1, maxw + 1) for h in range(1, maxw + 1)]
+    sizes += [wh for wh in thin if wh not in sizes]
+    for (w, h) in sizes:
+        if True:
             evs = []
             chips = [(x, y) for x in range(w) for y in range(h)]
-            if w <= full and h <= full:
+            if (w <= full and h <= full) or ((w, h) in thin and chk.quick is False):
                 srcs = chips
+            elif (w, h) in thin:
+                srcs = rng.sample(chips, min(2 * nsrc, len(chips)))
             else:
                 srcs = rng.sample(chips, min(nsrc, len(chips)))
             for s in srcs:
@@ -55,19 +111,37 @@ def run(chk):
                         n = geometry.shortest_torus_path_length(S, D, w, h)
                         evs.append(["tlen", list(S), list(D), int(n)])
                         vecs = set()
-                        for k in range(seeds):
-                            random.seed(chk.seed * 1000 + k)
-                            v = geometry.shortest_torus_path(S, D, w, h)
-                            vecs.add(tuple(int(c) for c in v))
+                        if (w <= full and h <= full) or (w, h) in thin:
+                            # every outcome of the tie-breaks (which minimal wrap, how many spirals)
+                            geometry.random = scr2
+                            try:
+                                for v in scr2.outcomes(lambda: geometry.shortest_torus_path(S, D, w, h)):
+                                    vecs.add(tuple(int(c) for c in v))
+                            finally:
+                                geometry.random = random
+                            chk.count("pairs with all tie-break outcomes enumerated")
+                        else:
+                            for k in range(seeds):
+                                random.seed(chk.seed * 1000 + k)
+                                v = geometry.shortest_torus_path(S, D, w, h)
+                                vecs.add(tuple(int(c) for c in v))
                         for v in sorted(vecs):
                             evs.append(["tvec", list(S), list(D), list(v)])
                             chk.note_case(("tvec", w, h, S, D, v), nontrivial=(s != d))
                             # walk it
                             paths = set()
-                            for k in range(2):
-                                random.seed(chk.seed * 77 + k)
-                                p = longest_dimension_first(v, s, w, h)
-                                paths.add(tuple((int(dr), int(x), int(y)) for dr, (x, y) in p))
+                            if w <= 4 and h <= 4:
+                                route_utils.random = scr3
+                                try:
+                                    for p in scr3.outcomes(lambda: longest_dimension_first(v, s, w, h)):
+                                        paths.add(tuple((int(dr), int(x), int(y)) for dr, (x, y) in p))
+                                finally:
+                                    route_utils.random = random
+                            else:
+                                for k in range(2):
+                                    random.seed(chk.seed * 77 + k)
+                                    p = longest_dimension_first(v, s, w, h)
+                                    paths.add(tuple((int(dr), int(x), int(y)) for dr, (x, y) in p))
                             for p in sorted(paths):
                                 evs.append(["ldf", list(v), list(s), w, h, [list(q) for q in p]])
                         chk.note_case(("tlen", w, h, S, D), nontrivial=(s != d))
